@@ -477,6 +477,10 @@ def fn_objects(case):
     if case["via"] == "at":
         def make_class():
             return load_module(src).f
+    elif case["via"] == "to":
+        def make_class():
+            from pyiron_workflow.nodes.function import to_function_node
+            return to_function_node("f", load_module(src).f, *labels, **kwargs)
     else:
         def make_class():
             return as_function_node(*labels, **kwargs)(load_module(src).f)
@@ -1163,7 +1167,7 @@ def gen_fn(rng, ctx=None):
     elif r < 0.40:
         ret = rng.choice([["none"], ["u", ["int"], "plain"], ["u", ["int", "NoneType"], "pipe"]])
     case = {"kind": "fn", "params": params, "body": body, "ret": ret, "declared": declared, "validate": validate,
-            "via": rng.choice(["call", "call", "at", "function_node"]), "postponed": rng.random() < 0.1, "ops": []}
+            "via": rng.choice(["call", "call", "at", "function_node", "to"]), "postponed": rng.random() < 0.1, "ops": []}
     if rng.random() < 0.25:
         case["nested"] = True       # defined inside a function scope (closure-style): __qualname__ != __name__
     case["ops"] = gen_ops(rng, [p["name"] for p in params], {p["name"]: atoms_of(p.get("ann")) for p in params},
